@@ -381,7 +381,7 @@ class Template:
                         _compile_module_file(
                             self, data, filename, path, self.module_writer
                         )
-                module = compat.load_module(self.module_id, path)
+                module = self._load_module_file(path, filename)
                 if (
                     module._magic_number != codegen.MAGIC_NUMBER
                     # the path of a module file derives from the URI alone:
@@ -395,7 +395,7 @@ class Template:
                         _compile_module_file(
                             self, data, filename, path, self.module_writer
                         )
-                    module = compat.load_module(self.module_id, path)
+                    module = self._load_module_file(path, filename)
 
             ModuleInfo(module, path, self, filename, None, None, None)
         else:
@@ -407,6 +407,20 @@ class Template:
             self._code = code
             ModuleInfo(module, None, self, filename, code, None, None)
         return module
+
+    def _load_module_file(self, path, filename):
+        try:
+            return compat.load_module(self.module_id, path)
+        except SyntaxError as error:
+            if error.filename != path:
+                raise
+            data = util.read_file(filename)
+            text = Lexer(
+                data, filename, input_encoding=self.input_encoding
+            ).decode_raw_stream(data, True, self.input_encoding, filename)[1]
+            raise _module_syntax_error(
+                error, util.read_python_file(path), text, filename
+            ) from error
 
     @property
     def source(self):
@@ -808,6 +822,28 @@ def _translate_module_warnings(get_source, module_id, filename):
     return _show_warnings_as(_locate)
 
 
+def _module_syntax_error(error, module_source, template_text, filename):
+    """A SyntaxError that only shows when the generated module is compiled
+    (a misplaced ``% else``, a statement inside ``${}``, ``break`` outside
+    of a loop...), as the SyntaxException of the template line that the
+    offending module line was generated from."""
+
+    try:
+        line_map = ModuleInfo.get_module_source_metadata(
+            module_source, full_line_map=True
+        )["full_line_map"]
+        lineno = line_map[min(error.lineno or 1, len(line_map)) - 1]
+    except (AttributeError, IndexError, KeyError, ValueError):
+        lineno = 0
+    return exceptions.SyntaxException(
+        "(%s) %s" % (error.__class__.__name__, error.msg),
+        template_text,
+        lineno,
+        0,
+        filename,
+    )
+
+
 def _compile_text(template, text, filename):
     identifier = template.module_id
 
@@ -826,7 +862,12 @@ def _compile_text(template, text, filename):
     with _translate_module_warnings(
         lambda: source, cid, filename or template.uri
     ):
-        code = compile(source, cid, "exec")
+        try:
+            code = compile(source, cid, "exec")
+        except SyntaxError as error:
+            raise _module_syntax_error(
+                error, source, lexer.text, filename
+            ) from error
 
         # the module body, which is the code of any <%! %> blocks, is
         # executed within the same block, so that a warning it raises is
